@@ -122,6 +122,11 @@ class Gen:
                     self.emit("li a2, 1")
                 if self.slop():
                     self.emit(f"add a7, {r.choice(src)}, zero")
+                elif r.random() < 0.2:
+                    # the service number arrives through a register copy
+                    t_ = r.choice(TEMPS)
+                    self.emit(f"li {t_}, {num}")
+                    self.emit(f"mv a7, {t_}")
                 else:
                     self.emit(f"li a7, {num}")
                 self.emit("ecall")
@@ -158,7 +163,11 @@ class Gen:
                     self.emit(f"{r.choice(['lw', 'lb', 'lbu', 'lh'])} {d2}, {r.choice([0, 4])}({d})")
                     live += [d, d2]
                 if self.slop():
-                    self.emit(f"sw {r.choice(src)}, {r.choice([0, 4, 8])}(sp)")  # at/above entry sp
+                    # at/above entry sp, stores and loads
+                    if r.random() < 0.5:
+                        self.emit(f"sw {r.choice(src)}, {r.choice([0, 4, 8])}(sp)")
+                    else:
+                        self.emit(f"lw {r.choice(TEMPS)}, {r.choice([0, 4, 8])}(sp)")
 
     def function(self, name, funcs):
         r = self.rng
